@@ -2,5 +2,5 @@
 import fa_run
 
 def main(tier):
-    return fa_run.check("C17", tier, new_bits=128 | 512, kf_bit=256, beyond_bit=2048, proof_files=["proofs/FaFacts.v", "proofs/C17Proofs.v", "props/C17.v"],
+    return fa_run.check("C17", tier, new_bits=128 | 512, kf_bit=256, beyond_bit=2048, proof_files=["proofs/FaFacts.v", "proofs/C17Proofs.v", "proofs/C01Complete.v", "proofs/C17Quiet.v", "props/C17.v"],
                         what="a 'potentially undefined' warning for a name that is bound at that point (outside the listed classes), or a missing warning for an unbound / deleted name", kf_prefix="KF_C17")
